@@ -24,6 +24,7 @@ func init() {
 		Run: runC23,
 		Controls: []Control{
 			{Name: "keepalive-timer-survives-into-a-hold-time-zero-session", File: "protocols/bgp/server/fsm_open_sent.go", Old: "\t} else {\n\t\t// no keepalives and no hold timer in this session: don't keep the timer of an earlier one\n\t\tstopTimer(s.fsm.keepaliveTimer)\n\t\ts.fsm.keepaliveTimer = nil\n\t}\n", New: "\t}\n", Expect: "hold-timer-runs-only-with-nonzero-hold-time"},
+			{Name: "hold-timer-looked-at-once", File: "protocols/bgp/server/fsm_established.go", Old: "\t\tcase <-time.After(time.Second):\n\t\t\treturn s.checkHoldtimer()\n", New: "\t\tcase <-s.fsm.connectRetryTimer.C:\n\t\t\treturn s.checkHoldtimer()\n", Expect: "hold-timer-poll-recurs"},
 			{Name: "open-sent-re-entered-by-its-hold-timer-check", File: "protocols/bgp/server/fsm_open_sent.go", Old: "\t\t\tif _, same := next.(*openSentState); same {\n", New: "\t\t\tif _, same := next.(*openSentState); same && reason == \"\" {\n", Expect: "one-receiver-per-connection"},
 			{Name: "hold-timer-guard-before-negotiation", File: "protocols/bgp/server/fsm_open_sent.go", Old: "\ts.fsm.neighborID = openMsg.BGPIdentifier\n", New: "\ts.fsm.neighborID = openMsg.BGPIdentifier\n\tif s.fsm.holdTime != 0 {\n\t\ts.fsm.updateLastUpdateOrKeepalive()\n\t}\n", Expect: "negotiated-hold-time-read-after-it-is-stored"},
 			{Name: "openconfirm-hold-timer-ignores-hold-time-zero", File: "protocols/bgp/server/fsm_open_confirm.go", Old: "\tif s.fsm.holdTime != 0 && time.Since(s.fsm.lastUpdateOrKeepalive) > s.fsm.holdTime {", New: "\tif time.Since(s.fsm.lastUpdateOrKeepalive) > s.fsm.holdTime {", Expect: "hold-timer-runs-only-with-nonzero-hold-time"},
@@ -50,6 +51,7 @@ var rfcRelation = map[string][]string{
 }
 
 func runC23(c *core.Ctx) {
+	holdTimerPollRecurs(c, "hold-timer-poll-recurs")
 	oneReceiverPerConnection(c, "one-receiver-per-connection")
 	negotiatedHoldTimeReadAfterItIsStored(c, "negotiated-hold-time-read-after-it-is-stored")
 	holdTimerNeedsNonZeroHoldTime(c)
